@@ -637,9 +637,27 @@ def h_call_sequence(c):
     results, fresh, notes = [], [], []
     if _template_wire(template) != _template_wire(template2):
         notes.append("two get_lcm_function calls on the same model return different templates")
+    shared = None
+
+    def _update_in_place(dst, src):
+        for k in list(dst):
+            if k not in src:
+                del dst[k]
+        for k, v in src.items():
+            if isinstance(v, dict) and isinstance(dst.get(k), dict):
+                _update_in_place(dst[k], v)
+            else:
+                dst[k] = v
+
     for call in c["calls"]:
         cc = {**c, "params": call["params"]}
         params = _build_params(cc, template, call.get("leaf", "jax"))
+        if call.get("reuse_object") and shared is not None:
+            # the caller keeps ONE params dict and updates it in place between calls (a parameter sweep)
+            _update_in_place(shared, params)
+            params = shared
+        else:
+            shared = params
         snapshot = copy.deepcopy(params)
         if call["kind"] == "solve":
             r = [_val_wire_arr(v) for v in solve(params)]
